@@ -43,13 +43,13 @@ def run(tier, seed, replay):
                           props=False, edges=True)
     graph = udprelay.urgent_filter(vlib.Graph(g), drop=("StopBegin",))
     prefer = lambda e: e[1]["n"] in ("PackLod", "PackSto", "DlSendBack")
-    paths, left = graph.cover(seed=seed, max_len=40, max_paths=None if big else 600, prefer=prefer)
+    paths, left = graph.cover(seed=seed, max_len=40, max_paths=None if big else 450, prefer=prefer)
     behs = [graph.behaviour(p) for p in paths]
     # IP target, same-domain sessions (cache hits)
     g2, _ = udprelay.model(dict(Sess='{"s1","s2"}', Targets='{"a","ip"}', Domains='{"a"}', Rejected="{}", MaxSend=2, ChanCap=2, MaxReply=0, MaxTimer=0),
                            props=False, edges=True)
     graph2 = udprelay.urgent_filter(vlib.Graph(g2), drop=("StopBegin",))
-    paths2, left2 = graph2.cover(seed=seed, max_len=40, max_paths=(3000 if big else 300), prefer=lambda e: e[1]["n"] == "PackChk")
+    paths2, left2 = graph2.cover(seed=seed, max_len=40, max_paths=(3000 if big else 200), prefer=lambda e: e[1]["n"] == "PackChk")
     # a name whose lookup fails, between lookups that succeed: the failed lookup must not leave the cache pointing elsewhere
     g5, _ = udprelay.model(dict(Sess='{"s1"}', Targets='{"a","nx"}', Domains='{"a","nx"}', Unresolvable='{"nx"}', Rejected="{}", MaxSend=3, ChanCap=3,
                                 MaxReply=0, MaxTimer=0), props=False, edges=True)
@@ -65,7 +65,11 @@ def run(tier, seed, replay):
     g7, _ = udprelay.model(dict(Sess='{"s1"}', Targets='{"ip"}', Domains="{}", Rejected="{}", MaxSend=2, ChanCap=2, MaxReply=1, MaxTimer=0, GarbageOn="TRUE"), props=False, edges=True)
     graph7 = udprelay.urgent_filter(vlib.Graph(g7), drop=("StopBegin",))
     paths7, left7 = graph7.cover(seed=seed, max_len=40, prefer=lambda e: e[1]["n"] == "Garbage", tail=12)
-    n7, s7, d7 = udprelay.replay(v, binary, [graph7.behaviour(p) for p in paths7], variants[:1], seed, "garbage-first replay")
+    behs7 = [graph7.behaviour(p) for p in paths7]
+    v.coverage["garbage_steps_replayed"] = udprelay.must_contain(behs7, "Garbage", lambda a: a["n"] == "Garbage")
+    if not any(b["steps"] and b["steps"][0]["a"]["n"] == "Garbage" for b in behs7):
+        raise vlib.Broken("vacuous replay: no behaviour starts with Garbage")
+    n7, s7, d7 = udprelay.replay(v, binary, behs7, variants[:1], seed, "garbage-first replay")
     # (the batched uplink of the sendmmsg path is replayed with at most one packet queued)
     g7m, _ = udprelay.model(dict(Sess='{"s1"}', Targets='{"ip"}', Domains="{}", Rejected="{}", MaxSend=1, ChanCap=1, MaxReply=1, MaxTimer=0, GarbageOn="TRUE"), props=False, edges=True)
     graph7m = udprelay.urgent_filter(vlib.Graph(g7m), drop=("StopBegin",))
@@ -75,7 +79,7 @@ def run(tier, seed, replay):
     # garbage of one client while another client's session lives
     g7b, _ = udprelay.model(dict(Sess='{"s1","s2"}', Targets='{"ip"}', Domains="{}", Rejected="{}", MaxSend=1, ChanCap=1, MaxReply=0, MaxTimer=0, GarbageOn="TRUE"), props=False, edges=True)
     graph7b = udprelay.urgent_filter(vlib.Graph(g7b), drop=("StopBegin",))
-    paths7b, left7b = graph7b.cover(seed=seed, max_len=40, max_paths=None if big else 120, prefer=lambda e: e[1]["n"] == "Garbage", tail=8)
+    paths7b, left7b = graph7b.cover(seed=seed, max_len=40, max_paths=None if big else 60, prefer=lambda e: e[1]["n"] == "Garbage", tail=8)
     n7b, s7b, d7b = udprelay.replay(v, binary, [graph7b.behaviour(p) for p in paths7b], variants, seed, "garbage-first replay")
     v.coverage["replay_graphs"].append({"relay": "two sessions, garbage at every state", "distinct": g7b.distinct, "edges": len(graph7b.edges), "paths": len(paths7b), "uncovered_edges": left7b})
     n7, s7, d7 = n7 + n7b, s7 + s7b, max(d7, d7b)
@@ -90,7 +94,10 @@ def run(tier, seed, replay):
     paths8, left8 = graph8.cover(seed=seed, max_len=40, max_paths=None if big else 120,
                                  prefer=lambda e: e[1]["n"] == "UpPack" and len(e[1].get("flush") or []) > 1)
     bvars = [{"server": "socks5", "batchMode": "sendmmsg", "natTimeout": "30s"}, {"server": "ss2022", "batchMode": "sendmmsg", "natTimeout": "61s"}]
-    n8, s8, d8 = udprelay.replay(v, binary, [graph8.behaviour(p) for p in paths8], bvars, seed, "batched uplink replay")
+    behs8 = [graph8.behaviour(p) for p in paths8]
+    v.coverage["batches_with_destination_change_replayed"] = udprelay.must_contain(
+        behs8, "a batch whose destination changes", lambda a: a["n"] == "UpPack" and len({x["to"] for x in (a.get("flush") or [])}) > 1)
+    n8, s8, d8 = udprelay.replay(v, binary, behs8, bvars, seed, "batched uplink replay")
     v.coverage["replay_graphs"].append({"relay": "batched uplink (sendmmsg), two destinations", "distinct": g8.distinct, "edges": len(graph8.edges), "paths": len(paths8), "uncovered_edges": left8})
     n2, s2, d2 = n2 + n8, s2 + s8, max(d2, d8)
     # (3) session-id keyed relay (Shadowsocks 2022 server): the client moves to another address mid-session, forged/replayed
